@@ -1,4 +1,4 @@
-SPECIFICATION SpecSize
+SPECIFICATION SpecBisect
 CONSTANTS
   Pool <- MC_Pool
   Absent <- MC_Absent
@@ -7,6 +7,7 @@ CONSTANTS
   Keys <- MC_Keys
   AbsentKey = "K0"
   MaxKeyN = 3
+  MaxEntries = 65535
   SizeDomain <- MC_AllN
   FinalCompare = TRUE
   Clamp = "zero"
@@ -14,4 +15,4 @@ CONSTANTS
   Boundary = 0
 CHECK_DEADLOCK FALSE
 INVARIANT TypeOK
-INVARIANT Inv_IndexBuilt
+INVARIANT Inv_NoBoundary
